@@ -6,6 +6,7 @@
 
 mod allcfgs;
 mod ctx;
+mod huge;
 mod model;
 mod mon;
 mod selfcheck;
@@ -46,6 +47,12 @@ fn main() {
             }
         },
         "noop" => 0,
+        "huge" => {
+            let prop = arg(&args, "--prop").expect("--prop");
+            let j = huge::run(prop);
+            write_out(arg(&args, "--out"), &j);
+            0
+        }
         "list" => {
             for c in allcfgs::all_cfgs(2) {
                 println!("{} bs={} par={} enc_only={} real={}", c.name, c.bs, c.par, c.enc_only, c.real);
